@@ -15,6 +15,7 @@ import Spydr.Common.Proto
 import Spydr.Xform.ModelUniquify
 import Spydr.Xform.ModelFlatten
 import Spydr.Xform.Spec
+import Spydr.Xform.SpecFrag
 
 open Lean Spydr.Proto Spydr.Xform
 
@@ -114,6 +115,8 @@ def handle (st : Unit) (j : Json) : Except String (Unit × Json) := do
   | "spec" =>
     return (st, Json.mkObj [("wf", Json.bool (wfCheck d)), ("idsUnique", Json.bool (idsUniqueCheck d)),
                             ("named", Json.bool (namedCheck d)),
+                            ("fragments", Json.mkObj ((fragments d ((getNat j "flatFuel").toOption.getD ((allInsts d).length + 5))).map
+                              (fun (p : String × String) => (p.1, Json.str p.2)))),
                             ("refcount", ofNatList ((List.range d.ndefs).map d.refCount))])
   | f => throw s!"unknown fn {f}"
 
